@@ -38,7 +38,7 @@ ASSUMPTIONS = [
     "<=2); several lost options are reported one by one; raising routes are "
     "reduced to the 1-minimal failing option set instead",
 ]
-BUDGET_S = {"quick": 120, "thorough": 840}
+BUDGET_S = {"quick": 70, "thorough": 840}
 ROUTES = ["from_config", "get_quantizer_dict", "get_quantizer_legacy_dict",
           "keras_deserialize"]
 # options without any effect on outputs (variable plumbing only); symmetric
